@@ -94,6 +94,30 @@ def check_pack(byting, ws, vs, size, boolean):
     return guarded(body, "C40.Props.unpack_pack", inp)
 
 
+def check_byte(byting, ws, vs, boolean, anybyte):
+    """packByte / unpackByte with a digit format (each width 1..8, total <= 8)"""
+    fmtb = "".join(str(w) for w in ws).encode()
+    inp = {"fmt": fmtb.decode(), "fields": list(vs), "boolean": boolean, "byte": anybyte}
+
+    def body():
+        B = byting.packByte(fmtb, list(vs))
+        expect(isinstance(B, int) and 0 <= B < 256, observed=B, expected="an int in [0,256)", what="packByte")
+        want = tuple(norm(w, v, boolean) for w, v in zip(ws, vs))
+        got = byting.unpackByte(fmtb, B, boolean)
+        expect(got == want and [type(x) for x in got] == [type(x) for x in want], observed=repr(got),
+               expected=repr(want), packed=B, what="unpackByte(packByte(...))",
+               contradicts="C40.Props.unpackByte_packByte")
+        pos, wantb = 8, []
+        for w in ws:
+            pos -= w
+            v = ((anybyte & 0xff) >> pos) & (2 ** w - 1)
+            wantb.append(bool(v) if (w == 1 and boolean) else v)
+        gotb = byting.unpackByte(fmtb, anybyte, boolean)
+        expect(gotb == tuple(wantb), observed=repr(gotb), expected=repr(tuple(wantb)), what="unpackByte fields",
+               contradicts="C40.Props.unpackByte_fields")
+    return guarded(body, "C40.Props.unpackByte_packByte", inp)
+
+
 def check_unpack_bytes(byting, ws, b, boolean):
     """unpack then pack returns the bytes (no pad) / the fields re-pack to the same prefix"""
     fmt = fmt_str(ws)
@@ -215,6 +239,11 @@ def search(byting, rng, W, nrandom, count=None):
                 if first:
                     note("pack", {"fmt": ws, "fields": list(vs)})
                     first = False
+            if total <= 8 and ws:
+                for vs in ([rng.randrange(2 ** w) for w in ws], [rng.choice([2 ** w, -1, 255, 3 * 2 ** w + 1]) for w in ws]):
+                    f = check_byte(byting, ws, vs, rng.random() < 0.5, rng.randrange(-300, 1000))
+                    if f:
+                        return done(f)
             # values wider than their field, truthy one-bit fields
             vs = [rng.choice([2 ** w, 2 ** w + 1, 3 * 2 ** w + (2 ** w - 1), -1, 255]) for w in ws]
             f = check_pack(byting, ws, vs, None, True) or check_pack(byting, ws, vs, (total + 7) // 8 + 1, False)
